@@ -20,7 +20,7 @@ import (
 // VerifC11_Kernels: the string kernels behind paths, expressions and loops
 // on arbitrary short byte strings (index and slice bounds for every input).
 func VerifC11_Kernels() {
-	n := zzBound("N", 4, 6)
+	n := zzBound("N", 3, 5)
 	k := zzChoice("kernel", 8)
 	s := zzStringIn("s", n, "a.[]'\" (),|{}=!-:1")
 	switch k {
@@ -50,7 +50,7 @@ func VerifC11_Kernels() {
 // serialisation without a panic (the HTML parser is bypassed by building the
 // DOM directly, as for C01).
 func VerifC11_TemplateBytes() {
-	n := zzBound("N", 4, 6)
+	n := zzBound("N", 3, 5)
 	pos := zzChoice("pos", 6)
 	s := zzStringIn("s", n, "{}a.[]'|( )!=-")
 	data := map[string]any{"a": map[string]any{"a": []any{1, "x"}}, "xs": []string{"p"}}
